@@ -1,7 +1,8 @@
 #!/bin/bash
 # Runs seeded changes against their checks with the hooks compiled out (public-API monitors only).
+# args: name:C01,C02 ...
 for m in "$@"; do
-  name=${m%%:*}; props=${m#*:}
+  name=${m%%:*}; props=$(echo "${m#*:}" | tr "," " ")
   out=$(VERIF_NOHOOKS=1 /verif/mutcheck.sh /verif/seeded/$name/patch.diff $props 2>&1)
   echo "$name: $(echo "$out" | grep '^== C' | sed 's/property=.*violations=/violations=/; s/ known.*//' | tr '\n' ' ') kinds: $(echo "$out" | grep -o 'kind=[^ ]*' | sort -u | head -4 | tr '\n' ' ')"
 done
